@@ -525,8 +525,10 @@ where
         } else if self.flags.contains(Flags::READ_TIMEOUT) {
             // received new data but not enough for parsing complete frame
             self.read_remains = decoded.remains as u32;
-        } else if self.read_remains == 0 && decoded.remains == 0 {
-            // no new data, start keep-alive timer
+        } else if (self.read_remains == 0 && decoded.remains == 0)
+            || self.io.cfg().frame_read_rate().is_none()
+        {
+            // no new data or frame read rate is not configured, start keep-alive timer
             if self.flags.contains(Flags::KA_ENABLED) && !self.flags.contains(Flags::KA_TIMEOUT)
             {
                 log::trace!(
